@@ -143,6 +143,11 @@ def run(e: Engine, rep: Report):
              'per-recipient results are keyed by the recipients of that '
              'object, which is where the queue looks them up')
     r123(e, rep)
+    common.reuse(e, rep, _c13.b3, 'R1.24',
+                 '= C13-B3: the per-reply grouping of failed recipients '
+                 'puts every recipient into exactly one group (a recipient '
+                 'that falls out of the grouping is struck off the message '
+                 'and named in no bounce)', only={'B3'})
     rep.floor('R1.2', 5, 'removal sites')
     rep.floor('R1.5', 3, 'backend uses of the index argument')
 
